@@ -222,7 +222,10 @@ def completion(b0, b1, compress, inside_cmp, rng):
     dlen = n
     if op == 8 and n >= 2:
         plain = bytes([0x03, 0xE8]) + b"a" * (n - 2)
-    elif op < 8 and compress and (rsv1 and op != 0 or inside_cmp and op == 0):
+    elif op < 8 and compress and (inside_cmp or rsv1):
+        # whatever the receiver will run through its decompressor must be valid deflate data: every data frame inside a
+        # compressed message, and every data frame with RSV1 that starts one (also when it violates another rule and the
+        # endpoint keeps reading in fail-by-close mode) - corrupt deflate data is not among the violations C02 lists
         plain = deflate_prefix(n, rng)
     else:
         plain = b"a" * n
@@ -360,7 +363,9 @@ def gen_sequence(rng, ctx):
             f = frames[-1]
             m = rng.choice(["rsv", "op", "nonmin", "mask", "ctlfrag", "biglen"])
             if m == "rsv":
-                f["b0"] |= rng.choice([0x10, 0x20, 0x40, 0x70])
+                # (with a negotiated PMCE, RSV1 alone on a data frame is legal and would make the payload compressed data:
+                # corrupt deflate streams are not among the violations C02 lists)
+                f["b0"] |= rng.choice([0x10, 0x20, 0x70] if ctx["compress"] else [0x10, 0x20, 0x40, 0x70])
             elif m == "op":
                 f["b0"] = (f["b0"] & 0xF0) | rng.choice([3, 7, 11, 15])
             elif m == "nonmin":
